@@ -288,6 +288,27 @@ def split(outer, at, mids):
                 impl=impl, model=sl("group", *([m["model"] for m in mids] + [outer["model"]])))
 
 
+def bc_script(repo, calls):
+    """calls on the store's upload interface (store.BlobCreator) in a given order, sessions numbered by creation:
+    dict(fn=create|session|write|verify|chalg|info|close|cancel, sess=k, alg=, digest=, data=bytes)"""
+    impl_calls, mc = [], []
+    for c in calls:
+        ic = dict(fn=c["fn"], sess=c.get("sess", 0), alg=c.get("alg", ""), digest=c.get("digest", ""), b64=b64(c.get("data", b"")))
+        impl_calls.append(ic)
+        f = c["fn"]
+        if f == "create":
+            mc.append(sl("create", sx(c.get("alg", "")), sx(c.get("digest", ""))))
+        elif f == "write":
+            mc.append(sl("write", str(c["sess"]), sx(lat(c["data"]))))
+        elif f == "verify":
+            mc.append(sl("verify", str(c["sess"]), sx(c["digest"])))
+        elif f == "chalg":
+            mc.append(sl("chalg", str(c["sess"]), sx(c["alg"])))
+        else:
+            mc.append(sl(f, str(c["sess"])))
+    return dict(kind="bc", repo=repo, calls=impl_calls, impl=dict(op="bc", repo=repo, calls=impl_calls), model=sl("bc", sx(repo), sl(*mc)))
+
+
 def special(op, model="(skip)", **kw):
     """driver-only operation (gc, restart, snapshot, ...)"""
     st = dict(op=op)
@@ -506,6 +527,9 @@ def canon_impl(step, res, sids):
         return dict(pages=[canon_impl(sub, p, sids) for p in res["par"][0]])
     if step.get("model") == "(skip)":
         return dict(skip=True)
+    if step["kind"] == "bc":
+        return dict(bc=[(c.get("ok", False), (c.get("size"), c.get("digest")) if c.get("ok") and f["fn"] in ("create", "write", "verify", "chalg", "info") else None)
+                        for c, f in zip(res.get("bc") or [], step["calls"])])
     if step["kind"] == "refwalk":
         import c07
         return c07.canon_walk_impl(step, res)
@@ -559,6 +583,9 @@ def canon_model(step, res, sids):
         return dict(pages=[canon_model(sub, p, sids) for p in res["pages"]])
     if step.get("model") == "(skip)" or res.get("skip"):
         return dict(skip=True)
+    if step["kind"] == "bc":
+        return dict(bc=[(c.get("ok", False), (c.get("size"), c.get("digest")) if c.get("ok") and f["fn"] in ("create", "write", "verify", "chalg", "info") else None)
+                        for c, f in zip(res.get("bc") or [], step["calls"])])
     if step["kind"] == "refwalk":
         return dict(panic=False, status=res["status"], errs=res["errs"], digest=res["digest"],
                     refs=sorted(dkey(d) for d in res["body"].get("refs", [])), filtered=res["filtered"], ctype=res["ctype"])
